@@ -51,7 +51,8 @@ def quiescent_layer(ctx: Ctx):
         conc = dd.CONCS_OFF[i % len(dd.CONCS_OFF)]
         end_t, warm_t = ctx.rng.choice([(3, 1), (4, 0), (4, 4)])
         ctl = dc.random_run(ctx, ctx.rng, conc, end_t, warm_t, "pause", cmds=ALL, ncmds=ctx.rng.choice([4, 8, 14]),
-                            maxev=ctx.rng.choice([4, 8]), reinit=True, p_fault=ctx.rng.choice([0.0, 0.0, 0.3]))
+                            maxev=ctx.rng.choice([4, 8]), reinit=True, p_fault=ctx.rng.choice([0.0, 0.0, 0.3]),
+                            probe_cmds=i % 3 == 1, one_shots=i % 2 == 1)     # (listeners that issue commands while STARTING; self-unsubscribing subscribers in front of the observer)
         ctx.evaluations += 1
         if ctl.errors:
             ctx.violation(dc.err_key(ctl.errors), f"random command sequence {i}: {ctl.errors}", {"trace": dd.clean_trace(ctl.trace)})
@@ -74,5 +75,7 @@ def run(ctx: Ctx):
     # the TIME_CHANGED stream stays non-decreasing and equal to the time of the event about to run when LISTENERS schedule events too
     from checks import c02 as _c02
     _c02.listener_scheduling(ctx, scale=0.4)
+    # every notification of the run thread (START, TIME_CHANGED, WARMUP, STOP) is stamped with the simulator time, across bounded segments and steps
+    _c02.segment_listeners(ctx, scale=0.5)
     if c04_threads:
         c04_threads.overlap_layer(ctx)
